@@ -492,6 +492,11 @@ func (s *Server) handleSession(clientMAC net.HardwareAddr, data []byte) {
 		return
 	}
 
+	// The payload must hold the 2-byte PPP protocol and fit in the frame
+	if hdr.Length < 2 || int(hdr.Length) > len(data)-6 {
+		return
+	}
+
 	session := s.sessions.GetSession(hdr.SessionID)
 	if session == nil {
 		return
